@@ -106,6 +106,11 @@ def wAll : List Op := [.ev (.hdr 1), .ev (.dat 1), .ev (.hdr 2), .ev (.dat 2), .
 /-- the node restarted on the image, after everything has been delivered again -/
 def wAfter : Option FNode := (start wC wImage).map fun p => runFrom wC wch3 p.1 wAll
 
+/-- the same crash window at the initial height: header 1 (an empty block) arrives at the fresh node and the
+process dies after the state write of applying block 1 -/
+def wImage1 : Store := (fresh wC).store.applyPrefix 1 (deliver wch3 (fresh wC) (.hdr 1)).2
+def wAfter1 : Option FNode := (start wC wImage1).map fun p => runFrom wC wch3 p.1 wAll
+
 set_option maxRecDepth 100000 in
 theorem wFacts :
     (∀ k, k ≤ 4 → wC.initialHeight ≤ k → CheckBlock wC wch k) ∧
@@ -116,7 +121,27 @@ theorem wFacts :
     ready wC wch3 3 wShuffled = 3 ∧
     (wProd.store.height = 4 ∧ (wch 2).map (·.data.txs) = some [[7]] ∧ (wch 4).map (·.data.txs) = some [[7]]) ∧
     (afterStateWrite (deliver wch3 wBefore (.hdr 2)).2 1 = true ∧ recHeight wC wImage = 2 ∧ wImage.getBlock 2 = none ∧
-     wAfter.map (fun n => (n.store.height, n.lastState.lastHeight, n.store.getBlock 2, n.alive)) = some (3, 3, none, true)) := by
+     wAfter.map (fun n => (n.store.height, n.lastState.lastHeight, n.store.getBlock 2, n.alive)) = some (3, 3, none, true)) ∧
+    (recHeight wC wImage1 = 1 ∧ (wImage1.getBlock 1).map (·.sh.sig) = some .none ∧
+     (wch3 1).map (·.sh.sig.isEmpty) = some false ∧
+     wAfter1.map (fun n => (n.store.height, (n.store.getBlock 1).map (·.sh.sig), n.alive)) = some (3, some .none, true)) := by
   decide +kernel
+
+theorem wf_check4 : ∀ k, k ≤ 4 → wC.initialHeight ≤ k → CheckBlock wC wch k := wFacts.1
+theorem wf_stall : (run wC wch wInOrder).store.height = 3 := wFacts.2.1
+theorem wf_ready4 : ready wC wch 4 wInOrder = 4 := wFacts.2.2.1
+theorem wf_check3 : ∀ k, k ≤ 3 → wC.initialHeight ≤ k → CheckBlock wC wch3 k := wFacts.2.2.2.1
+theorem wf_distinct3 : CheckDistinct wch3 3 := wFacts.2.2.2.2.1
+theorem wf_readyShuffled : ready wC wch3 3 wShuffled = 3 := wFacts.2.2.2.2.2.1
+theorem wf_chain : wProd.store.height = 4 ∧ (wch 2).map (·.data.txs) = some [[7]] ∧
+    (wch 4).map (·.data.txs) = some [[7]] := wFacts.2.2.2.2.2.2.1
+theorem wf_crash : afterStateWrite (deliver wch3 wBefore (.hdr 2)).2 1 = true ∧ recHeight wC wImage = 2 ∧
+    wImage.getBlock 2 = none ∧
+    wAfter.map (fun n => (n.store.height, n.lastState.lastHeight, n.store.getBlock 2, n.alive)) = some (3, 3, none, true) :=
+  wFacts.2.2.2.2.2.2.2.1
+theorem wf_crash1 : recHeight wC wImage1 = 1 ∧ (wImage1.getBlock 1).map (·.sh.sig) = some .none ∧
+    (wch3 1).map (·.sh.sig.isEmpty) = some false ∧
+    wAfter1.map (fun n => (n.store.height, (n.store.getBlock 1).map (·.sh.sig), n.alive)) = some (3, some .none, true) :=
+  wFacts.2.2.2.2.2.2.2.2
 
 end Sync
